@@ -222,8 +222,18 @@ def small_curve(order, G):
     return c
 
 
+try:  # CPython's built-in SHA-256: hashlib's OpenSSL binding is ~50x slower under the preloaded ASan runtime
+    from _sha256 import sha256 as _sha256_new
+except ImportError:  # pragma: no cover
+    _sha256_new = hashlib.sha256
+
+
 def sha256(b):
-    return hashlib.sha256(b).digest()
+    return _sha256_new(b).digest()
+
+
+def sha256_new(b=b""):
+    return _sha256_new(b)
 
 
 def tagged_hash(tag, msg):
